@@ -1213,33 +1213,59 @@ isal_deflate_stateless_init(struct isal_zstream *stream)
         return;
 }
 
+/* Set every entry of a hash table to the same index */
+static void
+fill_hash_table(uint16_t *hash_table, uint32_t size, uint16_t val)
+{
+        uint32_t i;
+
+        for (i = 0; i < size / sizeof(uint16_t); i++)
+                hash_table[i] = val;
+}
+
+/* Add an offset to every index in a hash table */
+static void
+shift_hash_table(uint16_t *hash_table, uint32_t size, uint16_t offset)
+{
+        uint32_t i;
+
+        for (i = 0; i < size / sizeof(uint16_t); i++)
+                hash_table[i] += offset;
+}
+
 void
 isal_deflate_hash(struct isal_zstream *stream, uint8_t *dict, uint32_t dict_len)
 {
-        /* Reset history to prevent out of bounds matches this works because
-         * dictionary must set at least 1 element in the history */
+        /* Reset history to prevent out of bounds matches. Entries not set by
+         * the dictionary refer to the last byte of the dictionary, this works
+         * because dictionary must set at least 1 element in the history */
         struct level_buf *level_buf = (struct level_buf *) stream->level_buf;
         uint32_t hash_mask = stream->internal_state.hash_mask;
+        uint16_t init_val = (stream->total_in - 1) & 0xffff;
 
         switch (stream->level) {
         case 3:
-                memset(level_buf->lvl3.hash_table, -1, sizeof(level_buf->lvl3.hash_table));
+                fill_hash_table(level_buf->lvl3.hash_table, sizeof(level_buf->lvl3.hash_table),
+                                init_val);
                 isal_deflate_hash_lvl3(level_buf->lvl3.hash_table, hash_mask, stream->total_in,
                                        dict, dict_len);
                 break;
 
         case 2:
-                memset(level_buf->lvl2.hash_table, -1, sizeof(level_buf->lvl2.hash_table));
+                fill_hash_table(level_buf->lvl2.hash_table, sizeof(level_buf->lvl2.hash_table),
+                                init_val);
                 isal_deflate_hash_lvl2(level_buf->lvl2.hash_table, hash_mask, stream->total_in,
                                        dict, dict_len);
                 break;
         case 1:
-                memset(level_buf->lvl1.hash_table, -1, sizeof(level_buf->lvl1.hash_table));
+                fill_hash_table(level_buf->lvl1.hash_table, sizeof(level_buf->lvl1.hash_table),
+                                init_val);
                 isal_deflate_hash_lvl1(level_buf->lvl1.hash_table, hash_mask, stream->total_in,
                                        dict, dict_len);
                 break;
         default:
-                memset(stream->internal_state.head, -1, sizeof(stream->internal_state.head));
+                fill_hash_table(stream->internal_state.head, sizeof(stream->internal_state.head),
+                                init_val);
                 isal_deflate_hash_lvl0(stream->internal_state.head, hash_mask, stream->total_in,
                                        dict, dict_len);
         }
@@ -1324,6 +1350,28 @@ isal_deflate_reset_dict(struct isal_zstream *stream, struct isal_dict *dict)
         default:
                 memcpy(stream->internal_state.head, dict->hashtable,
                        sizeof(stream->internal_state.head));
+        }
+
+        /* The dictionary was hashed as if the stream started right after it; when
+         * it is installed later in a stream the indices move with total_in */
+        if (stream->total_in & 0xffff) {
+                switch (stream->level) {
+                case 3:
+                        shift_hash_table(level_buf->lvl3.hash_table,
+                                         sizeof(level_buf->lvl3.hash_table), stream->total_in);
+                        break;
+                case 2:
+                        shift_hash_table(level_buf->lvl2.hash_table,
+                                         sizeof(level_buf->lvl2.hash_table), stream->total_in);
+                        break;
+                case 1:
+                        shift_hash_table(level_buf->lvl1.hash_table,
+                                         sizeof(level_buf->lvl1.hash_table), stream->total_in);
+                        break;
+                default:
+                        shift_hash_table(stream->internal_state.head,
+                                         sizeof(stream->internal_state.head), stream->total_in);
+                }
         }
 
         return COMP_OK;
